@@ -293,7 +293,8 @@ class Explorer:
                 continue
             shown[cls] = shown.get(cls, 0) + 1
             if shown[cls] <= MAX_LINES_PER_CLASS:
-                print('VIOLATION property=%s replay=%s class=%s key=%s' % (self.prop, v['replay'], cls, v['script']['key']))
+                print('VIOLATION property=%s replay=%s' % (self.prop, v['replay']))
+                print('  class=%s key=%s observed=%s' % (cls, v['script']['key'], str(v['verdict'].get('observed'))[:200]))
         if not BLESS:
             for cls, n in sorted(shown.items()):
                 if n > MAX_LINES_PER_CLASS:
